@@ -166,6 +166,19 @@ class Param():
 
         self.values = {}
 
+        # Packet callbacks of the misc requests (default value, persistent
+        # store/clear/state) that have not been answered yet
+        self._misc_callbacks = []
+
+    def _add_misc_callback(self, cb):
+        self._misc_callbacks.append(cb)
+        self.cf.add_port_callback(CRTPPort.PARAM, cb)
+
+    def _remove_misc_callback(self, cb):
+        if cb in self._misc_callbacks:
+            self._misc_callbacks.remove(cb)
+        self.cf.remove_port_callback(CRTPPort.PARAM, cb)
+
     def request_update_of_all_params(self):
         """Request an update of all the parameters in the TOC"""
         for group in self.toc.toc:
@@ -303,6 +316,11 @@ class Param():
         """Disconnected callback from Crazyflie API"""
         self.param_updater.close()
 
+        # Requests that have not been answered will not be answered any more: their
+        # callbacks must not see the packets of the next connection
+        for cb in list(self._misc_callbacks):
+            self._remove_misc_callback(cb)
+
         # Do not clear self.is_updated here as we might get spurious parameter updates later
 
         # Clear all values from the previous Crazyflie
@@ -405,14 +423,14 @@ class Param():
                 # An error reply is 4 bytes long; a longer reply is a value, also when its first byte is 2
                 if len(pk.data) == 4 and pk.data[3] == errno.ENOENT:
                     callback(complete_name, None)
-                    self.cf.remove_port_callback(CRTPPort.PARAM, new_packet_cb)
+                    self._remove_misc_callback(new_packet_cb)
                     return
 
                 default_value, = struct.unpack(element.pytype, pk.data[3:])
                 callback(complete_name, default_value)
-                self.cf.remove_port_callback(CRTPPort.PARAM, new_packet_cb)
+                self._remove_misc_callback(new_packet_cb)
 
-        self.cf.add_port_callback(CRTPPort.PARAM, new_packet_cb)
+        self._add_misc_callback(new_packet_cb)
 
         pk = CRTPPacket()
         pk.set_header(CRTPPort.PARAM, MISC_CHANNEL)
@@ -438,10 +456,10 @@ class Param():
             if pk.channel == MISC_CHANNEL and pk.data[0] == MISC_PERSISTENT_CLEAR and \
                     pk.data[1:3] == struct.pack('<H', element.ident):
                 callback(complete_name, pk.data[3] == 0)
-                self.cf.remove_port_callback(CRTPPort.PARAM, new_packet_cb)
+                self._remove_misc_callback(new_packet_cb)
 
         if callback is not None:
-            self.cf.add_port_callback(CRTPPort.PARAM, new_packet_cb)
+            self._add_misc_callback(new_packet_cb)
 
         pk = CRTPPacket()
         pk.set_header(CRTPPort.PARAM, MISC_CHANNEL)
@@ -470,10 +488,10 @@ class Param():
             if pk.channel == MISC_CHANNEL and pk.data[0] == MISC_PERSISTENT_STORE and \
                     pk.data[1:3] == struct.pack('<H', element.ident):
                 callback(complete_name, pk.data[3] == 0)
-                self.cf.remove_port_callback(CRTPPort.PARAM, new_packet_cb)
+                self._remove_misc_callback(new_packet_cb)
 
         if callback is not None:
-            self.cf.add_port_callback(CRTPPort.PARAM, new_packet_cb)
+            self._add_misc_callback(new_packet_cb)
 
         pk = CRTPPacket()
         pk.set_header(CRTPPort.PARAM, MISC_CHANNEL)
@@ -508,7 +526,7 @@ class Param():
                     pk.data[1:3] == struct.pack('<H', element.ident):
                 if pk.data[3] == errno.ENOENT:
                     callback(complete_name, None)
-                    self.cf.remove_port_callback(CRTPPort.PARAM, new_packet_cb)
+                    self._remove_misc_callback(new_packet_cb)
                     return
 
                 is_stored = pk.data[3] == 1
@@ -526,9 +544,9 @@ class Param():
                              stored_value if is_stored else None
                          )
                          )
-                self.cf.remove_port_callback(CRTPPort.PARAM, new_packet_cb)
+                self._remove_misc_callback(new_packet_cb)
 
-        self.cf.add_port_callback(CRTPPort.PARAM, new_packet_cb)
+        self._add_misc_callback(new_packet_cb)
         pk = CRTPPacket()
         pk.set_header(CRTPPort.PARAM, MISC_CHANNEL)
         pk.data = struct.pack('<BH', MISC_PERSISTENT_GET_STATE, element.ident)
@@ -645,6 +663,7 @@ class _ParamUpdater(Thread):
             self.wait_lock.release()
         except RuntimeError:
             pass
+        self._lock_pattern = None
 
     def request_param_setvalue(self, pk):
         """Place a param set value request on the queue. When this is sent to
